@@ -276,27 +276,21 @@ pub fn divide_uint_mod_inplace(numerator: &mut [u64], modulus: &Modulus, quotien
     if u64_count == 2 {
         util::divide_u128_u64_inplace(numerator, modulus.value(), quotient);
     } else if u64_count == 1 {
-        numerator[0] = barrett_reduce_u64(numerator[0], modulus);
-        quotient[0] = numerator[0] / modulus.value(); return;
+        quotient[0] = numerator[0] / modulus.value();
+        numerator[0] = barrett_reduce_u64(numerator[0], modulus); return;
     } else {
-        // If uint64_count > 2.
-        // x = numerator = x1 * 2^128 + x2.
-        // 2^128 = A*value + B.
-        let mut x1 = vec![0; u64_count - 2];
-        let mut x2 = vec![0; 2];
-        let mut quot = vec![0; u64_count];
-        let mut rem = vec![0; u64_count];
-        util::set_uint(&numerator[2..], u64_count - 2, &mut x1);
-        util::set_uint(&numerator[..2], 2, &mut x2); // x2 = (num) % 2^128.
-
-        util::multiply_uint(&x1, &modulus.const_ratio()[0..2], &mut quot);
-        util::multiply_uint_u64(&x1, modulus.const_ratio()[2], &mut rem);
-        util::add_uint_inplace(&mut rem, &x2);
-
-        let remainder_u64_count = util::get_significant_uint64_count_uint(&rem);
-        divide_uint_mod_inplace(&mut rem, modulus, &mut quotient[0..remainder_u64_count]);
-        util::add_uint_inplace(quotient, &quot);
-        numerator[0] = rem[0];
+        // If uint64_count > 2: schoolbook long division by the one-word modulus,
+        // from the most significant word down.
+        let mut rem = 0;
+        for i in (0..u64_count).rev() {
+            let mut wide_numerator = [numerator[i], rem];
+            let mut wide_quotient = [0, 0];
+            util::divide_u128_u64_inplace(&mut wide_numerator, modulus.value(), &mut wide_quotient);
+            quotient[i] = wide_quotient[0];
+            rem = wide_numerator[0];
+            numerator[i] = 0;
+        }
+        numerator[0] = rem;
         return;
     }
 }
